@@ -63,7 +63,7 @@ def generate_cmd(
     r = get_fcp(fcp, logger)
     if r.is_err():
         print(logger.error(r.err().results_in("Failed to generate fcp")))
-        return
+        sys.exit(1)
     fcp_v2 = r.unwrap()
 
     generator_manager = GeneratorManager(make_general_verifier())
@@ -71,6 +71,7 @@ def generate_cmd(
 
     if result.is_err():
         print(logger.error(result.err().results_in("Failed to generate fcp")))
+        sys.exit(1)
 
 
 @click.command()  # type: ignore
